@@ -65,7 +65,8 @@ class Retarget(Machine):
         "rejected_n_points", "rejected_n_dims", "rejected_between_accepted", "set_target_on_copy",
         "mirror_needed_allow_off", "mirror_needed_allow_on", "similarity_rotation_off",
         "tps_floor_matters", "gpa_checked", "gpa_not_converged", "noise_before_retarget", "pinv_retargeted",
-        "integer_dtype_first_target", "same_target_reset_after_inplace_edit", "target_is_a_pointcloud_subclass", "rejected_same_size_other_shape")
+        "integer_dtype_first_target", "same_target_reset_after_inplace_edit", "target_is_a_pointcloud_subclass", "rejected_same_size_other_shape",
+        "only_some_target_points_moved")
 
     @classmethod
     def swarm(cls, rng, tier):
@@ -238,6 +239,12 @@ class Retarget(Machine):
             return
         e = self.pool[op["i"] % len(self.pool)]
         t = self._target_array(e, op["seed"], op["mode"] % 4)
+        if op["seed"] % 7 == 0 and e.tgt.shape == t.shape and e.tgt.dtype.kind == "f":
+            # dragging a few landmarks: the other target points keep exactly their previous coordinates
+            keep = rs(op["seed"]).rand(t.shape[0]) < 0.6
+            if keep.any() and not keep.all():
+                t = np.where(keep[:, None], e.tgt, t)
+                self.ctx.probe("only_some_target_points_moved")
         tobj = self._pass(t, graph=bool(op["seed"] % 5 == 0))
         try:
             e.al.set_target(tobj)
